@@ -16,6 +16,7 @@ What is reported:
                                             nothing, goes on using the stream
         data-before-final-headers           D17b: a server sent DATA / END_STREAM before its response headers
         content-length-mismatch             a body that contradicts the content-length the same endpoint sent
+        content-length-not-a-number         D50: the sender passed on a content-length that is no decimal number
         header-list-exceeds-peer-limit      a header list larger than the receiver's advertised MAX_HEADER_LIST_SIZE
         setting-id-masked                   D39: hyperframe writes a setting identifier above 255 modulo 256
         ack-not-matched-to-its-frame        D8: the receiver had two SETTINGS frames of its own in flight; the ACK of
@@ -197,6 +198,10 @@ def oracle_C01(run):
                     cl = [v for n, v in hs if n == b'content-length']
                     if cl:
                         S['cl'][sid] = cl
+                        try:
+                            int(cl[0], 10)
+                        except ValueError:
+                            taint(c, sid, 'content-length-not-a-number')
                 if op.get('es'):
                     S['ended'].add(sid)
                 if not (cfg.get('vo', 1) and cfg.get('no', 1)) and rulebook.block_problem(hs, kind):
@@ -240,6 +245,8 @@ def oracle_C01(run):
                                                        'Flow control', 'flow control', 'frame size', 'Max inbound'))
             if cls == 'InvalidBodyLengthError' and any(s in X['S']['cl'] for s in sids):
                 cause = 'content-length-mismatch'
+            elif 'content-length-not-a-number' in causes and 'Invalid content-length header' in msg:
+                cause = 'content-length-not-a-number'
             elif cls == 'DenialOfServiceError' and 'header' in msg.lower() and any(s in X['S']['over_limit'] for s in sids):
                 cause = 'header-list-exceeds-peer-limit'
             elif cls == 'FlowControlError' and ('May not increment' in msg or "mustn't exceed" in msg) and (new_iws or has_ack):
